@@ -78,6 +78,34 @@ fn marker_case(seed: u64, lean: &mut Lean, hist: &mut std::collections::BTreeMap
         6 => { let mut b = vec![0u8]; b.extend(&good); b }
         _ => { let mut b = good.clone(); let i = r.below(4) as usize; b[i] ^= 1 << r.below(8); b }
     };
+    // one case in five: the marker is *absent* — on a plain database (0.jnl present) or on one whose
+    // first journal was already reclaimed (finding F12, fixed); must be refused untouched
+    let absent = r.chance(1, 5);
+    let mut j0_present = true;
+    if absent {
+        if r.chance(1, 2) {
+            let db = Database::builder(&dir).worker_threads_unchecked(0).open().unwrap();
+            let ks = db.keyspace("a", KeyspaceCreateOptions::default).unwrap();
+            ks.insert("late", "v").unwrap();
+            fjall::verif::verif_rotate_journal(&db).unwrap();
+            let _ = ks.rotate_memtable();
+            while fjall::verif::queued_worker_messages(&db) > 0 { let _ = fjall::verif::verif_worker_step(&db); }
+            fjall::verif::verif_journal_maintenance(&db).unwrap();
+            j0_present = dir.join("0.jnl").exists();
+        }
+        std::fs::remove_file(dir.join("version")).unwrap();
+        let before = tree_hash(&dir);
+        let res = std::panic::catch_unwind(|| Database::builder(&dir).worker_threads_unchecked(0).open());
+        let real = match &res { Ok(r) => class(r), Err(_) => "panic".into() };
+        drop(res);
+        let after = tree_hash(&dir);
+        let model = lean.ask(&format!("lock absent {} 1 o", j0_present as u8));
+        *hist.entry(format!("marker-absent:0.jnl-{}", if j0_present { "present" } else { "reclaimed" })).or_insert(0) += 1;
+        if !no_model() && model != real { fails.push(Failure { kind: "model-vs-impl", detail: format!("marker absent (0.jnl present: {j0_present}): model says {model}, open says {real}") }); }
+        if real == "ok" || real == "panic" { fails.push(Failure { kind: "impl-vs-oracle", detail: format!("marker absent on an existing database (0.jnl present: {j0_present}): open returned {real}") }); }
+        if before != after { fails.push(Failure { kind: "impl-vs-oracle", detail: format!("marker absent on an existing database (0.jnl present: {j0_present}): open returned {real} and the directory changed") }); }
+        return (fails, true, seed ^ 0x5a);
+    }
     std::fs::write(dir.join("version"), &bytes).unwrap();
     let before = tree_hash(&dir);
     let res = std::panic::catch_unwind(|| Database::builder(&dir).worker_threads_unchecked(0).open());
@@ -86,7 +114,7 @@ fn marker_case(seed: u64, lean: &mut Lean, hist: &mut std::collections::BTreeMap
     let after = tree_hash(&dir);
     let model = lean.ask(&format!("ver {}", hex(&bytes)));
     *hist.entry(format!("marker:{}", if real == "ok" { "accepted" } else { "refused" })).or_insert(0) += 1;
-    if model != real {
+    if !no_model() && model != real {
         fails.push(Failure { kind: "model-vs-impl", detail: format!("marker {}: model says {model}, open says {real}", hex(&bytes)) });
     }
     // oracle: accepted iff it starts with F J L 3; a refusal changes nothing
@@ -178,7 +206,7 @@ fn lock_case(seed: u64, lean: &mut Lean, hist: &mut std::collections::BTreeMap<S
     let res = Database::builder(&dir).worker_threads_unchecked(0).open();
     real_out.push(class(&res));
     drop(res);
-    let model = lean.ask(&format!("lock 464a4c03 1 {}", ops.join(" ")));
+    let model = lean.ask(&format!("lock 464a4c03 1 1 {}", ops.join(" ")));
     let model_classes: Vec<String> = model.split(' ').map(|s| s.trim_end_matches("+w").to_string()).collect();
     if model_classes != real_out {
         fails.push(Failure { kind: "model-vs-impl", detail: format!("ops {:?}: model open results {:?} vs real {:?}", ops, model_classes, real_out) });
